@@ -33,11 +33,11 @@ DRIVER_PRIMITIVES = (
     "send_device_settings", "wait_connected", "wait_dali_raw_response")
 
 
-def expand_method(world, cls, fn):
+def expand_method(world, cls, fn, aliases=True):
     """fn with calls of non-primitive helpers of the same class inlined."""
     from .normal import normalise
     return normalise(fn, world, cls.mod, cls, primitives=DRIVER_PRIMITIVES,
-                     aliases=True)
+                     aliases=aliases)
 
 
 def methods_of(world, modname):
